@@ -21,6 +21,15 @@ typedef struct Position { int line; int col; } Position; /* the cursor's coordin
 /* the match stack: the start coordinates of the node at index i are uninterpreted functions of i */
 int __CPROVER_uninterpreted_node_start_line(size_t i);
 int __CPROVER_uninterpreted_node_start_col(size_t i);
+int __CPROVER_uninterpreted_node_end_line(size_t i);
+int __CPROVER_uninterpreted_node_end_col(size_t i);
+#ifdef VERIF_CBMC
+#define NODE_END_LINE(i) __CPROVER_uninterpreted_node_end_line(i)
+#define NODE_END_COL(i) __CPROVER_uninterpreted_node_end_col(i)
+#else
+#define NODE_END_LINE(i) 0
+#define NODE_END_COL(i) 0
+#endif
 #ifdef VERIF_CBMC
 #define NODE_START_LINE(i) __CPROVER_uninterpreted_node_start_line(i)
 #define NODE_START_COL(i) __CPROVER_uninterpreted_node_start_col(i)
@@ -92,6 +101,8 @@ def build(prop, tier="quick"):
     r.add("R9.stack_size", r"\bm_match_stack\.size\(\)", "self->match_stack_size", min_fire=1)
     r.add("R9.node_line", r"\bm_match_stack\[([^\[\]]+)\]->location\.start\.line\b", r"NODE_START_LINE(\1)")
     r.add("R9.node_col", r"\bm_match_stack\[([^\[\]]+)\]->location\.start\.column\b", r"NODE_START_COL(\1)")
+    r.add("R9.node_eline", r"\bm_match_stack\[([^\[\]]+)\]->location\.end\.line\b", r"NODE_END_LINE(\1)")
+    r.add("R9.node_ecol", r"\bm_match_stack\[([^\[\]]+)\]->location\.end\.column\b", r"NODE_END_COL(\1)")
     r.add("R9.node_back_line", r"\bm_match_stack\.back\(\)->location\.start\.line\b", "NODE_START_LINE(self->match_stack_size - 1)")
     r.add("R9.node_back_col", r"\bm_match_stack\.back\(\)->location\.start\.column\b", "NODE_START_COL(self->match_stack_size - 1)")
     r.add("R9.ploc", r"\breturn Parse_Location\(", "return verif_make_location(", min_fire=2)
